@@ -1067,7 +1067,12 @@ func ReconcileStaging(repo gitstore.Storer, signCommit bool) error {
 			return err
 		}
 
-		return rsl.NewReferenceEntry(PolicyStagingRef, policyTip).Commit(repo, signCommit)
+		if err := rsl.NewReferenceEntry(PolicyStagingRef, policyTip).Commit(repo, signCommit); err != nil {
+			// staging must not be left ahead of its latest RSL entry
+			return repo.ResetDueToError(err, PolicyStagingRef, policyStagingTip)
+		}
+
+		return nil
 	}
 
 	// Diverged
@@ -1086,7 +1091,8 @@ func ReconcileStaging(repo gitstore.Storer, signCommit bool) error {
 		return err
 	}
 	if err := rsl.NewReferenceEntry(PolicyStagingRef, policyTip).Commit(repo, signCommit); err != nil {
-		return err
+		// staging must not be left out of step with its latest RSL entry
+		return repo.ResetDueToError(err, PolicyStagingRef, policyStagingTip)
 	}
 
 	// TODO: fix RSL entries for staging that are now orphaned
